@@ -53,6 +53,7 @@ def scen(calls, sched, init="absent", rows=None):
 TWO_CALL_CONFIGS = [
     ("2 calls, distinct names", [["e", "s1", 3], ["e", "s2", 4]], "absent", None, [9, 9]),
     ("2 calls, colliding name", [["e", "s1", 3], ["e", "s1", 3]], "absent", None, [9, 9]),
+    ("2 calls, colliding name that the tsv writer quotes", [["e", 'q"1', 3], ["e", 'q"1', 3]], "absent", None, [9, 9]),
     ("2 calls, one name already recorded", [["e", "s0", 1], ["e", "s2", 4]], "rows", [["s0", 1], ["s9", 2]], [9, 9]),
     ("evaluate + make_statistic", [["e", "s1", 3], ["s"]], "rows", [["s0", 1]], [9, 3]),
     ("evaluate + make_statistic, colliding evaluate", [["e", "s0", 1], ["s"]], "rows", [["s0", 1]], [4, 3]),
@@ -61,8 +62,9 @@ TWO_CALL_CONFIGS = [
 
 def random_case(rng, max_calls=4):
     n = rng.randint(3, max_calls)
-    pool = ["s1", "s2", "s3", "subject_name"]
-    inp = {"s1": 3, "s2": 4, "s3": 5, "subject_name": 6, "s0": 1, "s9": 2}
+    # names the tsv writer has to quote (double quote, tab, newline) are ordinary subject names too
+    pool = ["s1", "s2", "s3", "subject_name", 'q"1', "t\tb", "n\nl"]
+    inp = {"s1": 3, "s2": 4, "s3": 5, "subject_name": 6, "s0": 1, "s9": 2, 'q"1': 4, "t\tb": 5, "n\nl": 3}
     calls = []
     for _ in range(n):
         if rng.random() < 0.2:
@@ -131,6 +133,20 @@ def run(ctx):
                           {"fork_smoke": True, "jobs": jobs, "inputs": kk, "file": lines, "sequential": seq, "processes": rep})
     ctx.layers.append({"layer": "forked worker processes on the unmodified module, final file = sequential run", "runs": n_smoke,
                        "exhaustive": False})
+    # ---- forked processes, barrier-synchronised rounds with colliding names, both values of continue_file
+    n_rounds = ctx.scale(4, 24)
+    for i in range(n_rounds):
+        case = A.fork_rounds_case(rng)
+        case["continue_file"] = bool(i % 2)
+        lines, seq, rep = A.fork_rounds_run(case)
+        ctx.count({"fork_rounds": case}, True)
+        ctx.bump(f"forked processes, synchronised rounds, continue_file={case['continue_file']}")
+        probs = A.fork_rounds_problems(lines, seq, rep)
+        if probs:
+            ctx.violation("forked worker processes submitting colliding names at the same moment: " + "; ".join(probs[:3]),
+                          {"fork_rounds": case, "file": lines, "sequential": seq, "processes": rep})
+    ctx.layers.append({"layer": "forked worker processes, barrier-synchronised rounds with colliding names (continue_file True/False)",
+                       "runs": n_rounds, "exhaustive": False})
     # ---- extraction cross-check
     n, bad = common.coq_crosscheck("C16", triples[:60])
     ctx.crosschecked = n
@@ -144,6 +160,15 @@ def run(ctx):
 
 def replay(path):
     d = json.loads(open(path).read())
+    if d.get("fork_rounds"):
+        # real processes: not deterministic, so the recorded rounds are run several times
+        rc = 0
+        for attempt in range(4):
+            lines, seq, rep = A.fork_rounds_run(d["fork_rounds"])
+            probs = A.fork_rounds_problems(lines, seq, rep)
+            print(f"attempt {attempt + 1}: continue_file={d['fork_rounds']['continue_file']} ->", probs or "final file equals a sequential run")
+            rc |= bool(probs)
+        return rc
     if d.get("fork_smoke"):
         print("forked-process smoke run (not deterministic); recorded final file:", d.get("file"))
         print("sequential run:", d.get("sequential"))
